@@ -124,8 +124,21 @@ func copyTree(src, dst string) {
 	})
 }
 
+// crashOnly: run for C09 (VERIF_FOCUS=crash) - only the crash images of the conversion on the directory store are
+// judged: whatever was there before the crash (the referrers the fallback tags name, every other tag, manifest and
+// blob) is in effect after the restart.  Problems of an uninterrupted conversion are C17's and stay silent here.
+var crashOnly = os.Getenv("VERIF_FOCUS") == "crash"
+
 func main() {
 	r := vh.Start()
+	if crashOnly {
+		n := r.N(80, 2500)
+		vh.Parallel(n, 12, func(i int) { one(r, 2*i) })
+		r.Require("layouts", int64(n))
+		r.Require("crash_images_checked", int64(n))
+		r.Finish("conversions: generated legacy layouts (see C17) opened by a writable directory store under the filesystem shim; the tree is copied before every mutating call and in the middle of every write of the conversion, each copy is opened by a new server and must serve every referrer the fallback tags name, every other tag, manifest and blob; a case is one crash image", "crash_images_checked", "layout_classes")
+		return
+	}
 	n := r.N(160, 5000)
 	vh.Parallel(n, 12, func(i int) { one(r, i) })
 	r.Require("layouts", int64(n))
@@ -175,6 +188,9 @@ func one(r *vh.Run, i int) {
 	r.Count("layouts", 1)
 	if res.Stalled {
 		wit["blocked_goroutines"] = res.Desc
+		if crashOnly {
+			return
+		}
 		viol("conversion-hangs", fmt.Sprintf("the first requests after opening never return: every goroutine inside olareg is blocked (%s)", c.desc))
 		return // the server is abandoned
 	}
@@ -183,13 +199,15 @@ func one(r *vh.Run, i int) {
 		return
 	}
 	for _, p := range probs {
-		viol("conversion:"+classify(p), p+" ["+c.desc+"]")
+		if !crashOnly {
+			viol("conversion:"+classify(p), p+" ["+c.desc+"]")
+		}
 	}
 	_ = srv.Close()
 	if len(probs) > 0 {
 		return
 	}
-	if kind == vh.Dir {
+	if kind == vh.Dir && !crashOnly {
 		ib, _ := os.ReadFile(filepath.Join(root, "leg", "index.json"))
 		if !strings.Contains(string(ib), `"org.olareg.referrer.convert":"true"`) {
 			viol("conversion:no-marker", "index.json does not carry the converted marker after conversion ["+c.desc+"]")
@@ -199,18 +217,20 @@ func one(r *vh.Run, i int) {
 		}
 	}
 	// repeat
-	srv2 := vh.New(vh.Conf(kind, root, vh.Neutral))
-	res2 := vh.Watch(func() { probs = verifyServer(c, srv2, "second open") }, 2*time.Second, 60*time.Second)
-	if res2.Stalled {
-		wit["blocked_goroutines"] = res2.Desc
-		viol("conversion-hangs", "requests after the second open never return ["+c.desc+"]")
-		return
+	if !crashOnly {
+		srv2 := vh.New(vh.Conf(kind, root, vh.Neutral))
+		res2 := vh.Watch(func() { probs = verifyServer(c, srv2, "second open") }, 2*time.Second, 60*time.Second)
+		if res2.Stalled {
+			wit["blocked_goroutines"] = res2.Desc
+			viol("conversion-hangs", "requests after the second open never return ["+c.desc+"]")
+			return
+		}
+		for _, p := range probs {
+			viol("conversion-repeat:"+classify(p), p+" ["+c.desc+"]")
+		}
+		_ = srv2.Close()
+		r.Count("reopen_runs", 1)
 	}
-	for _, p := range probs {
-		viol("conversion-repeat:"+classify(p), p+" ["+c.desc+"]")
-	}
-	_ = srv2.Close()
-	r.Count("reopen_runs", 1)
 	// interrupted conversion: every crash image, opened again, gives the same result
 	mu.Lock()
 	imgs := images
